@@ -272,6 +272,10 @@ func C17(p *Prog, r *Run) {
 		r.c17OptionsReadOnly(roots[:4], re.RepoFuncsOf(p))
 	})
 
+	r.Rule("C17.7", "no goroutine that draws from the global random source outlives the call that started it: for every go statement of the library whose goroutine can reach a top-level math/rand draw, every path from the go statement to a return of the starting function passes sync.WaitGroup.Wait. Otherwise a goroutine left behind by earlier, unrelated work (a parallel epoch that failed in one species) interleaves its draws with a later sequential run, whose outcome is then not a function of the seed", func() {
+		r.c17GoroutinesJoined()
+	})
+
 	r.Rule("C17.3", "positive fixture: the scanner reports a map range hidden behind a call", func() {
 		if p.Fix == nil {
 			r.add("rule-inert", "fixture:maprange", "-", "fixtures not loaded", nil)
